@@ -290,6 +290,8 @@ type c18 struct {
 	nInvalid int
 	noCase   bool // oracle only: the input is too large to be written as a Coq term
 	seen     map[string]bool
+	// values that are decoded into again and again (stale state must not survive a decode)
+	reSer map[byte]*upc.UePolDeliverySer
 }
 
 func (c *c18) fail(site, class string, input interface{}, detail string) {
@@ -361,6 +363,31 @@ func (c *c18) decodeOnce(which int, in []byte) (obs string, flat []uint64, class
 	return "OOk " + coqNs(flat), flat, "ok"
 }
 
+// decodeReused decodes a whole container into a value that earlier containers OF THE SAME MESSAGE TYPE were
+// decoded into (one long-lived target per message type: the unchanged code allocates the message body anew
+// on every decode, so a target that only ever saw this type must end up exactly like a fresh one; the list
+// decoders append by design and are not included)
+func (c *c18) decodeReused(which int, in []byte) (flat []uint64, ok bool) {
+	if which != decSer || len(in) < 2 {
+		return nil, false
+	}
+	b := append(make([]byte, 0, len(in)), in...)
+	if c.reSer == nil {
+		c.reSer = map[byte]*upc.UePolDeliverySer{}
+	}
+	u := c.reSer[in[1]]
+	if u == nil {
+		u = upc.NewUePolDeliverySer()
+		c.reSer[in[1]] = u
+	}
+	var err error
+	p, _ := hk.Catch(func() {
+		err = u.UePolDeliverySerDecode(b)
+		flat = flatSer(u)
+	})
+	return flat, !p && err == nil
+}
+
 // emitDecode: one decoder on one input = one correspondence case + the totality oracle
 func (c *c18) emitDecode(stream string, which int, in []byte) (flat []uint64, class string) {
 	r := c.r
@@ -374,6 +401,14 @@ func (c *c18) emitDecode(stream string, which int, in []byte) (flat []uint64, cl
 	if !c.noCase {
 		id := r.NextID()
 		r.AddCase(fmt.Sprintf("%s %d %s (%s)", decCase[which], id, hk.CoqBytes(in), obs), fmt.Sprintf("%s %s", decName[which], hk.Hex(in)))
+	}
+	// decoding into a value that was already decoded into before must give what a fresh value gives:
+	// decode is the inverse of encode, whatever the target held
+	if class == "ok" {
+		if got, ok := c.decodeReused(which, in); ok && fmt.Sprint(got) != fmt.Sprint(flat) {
+			c.fail("uePolicyContainer."+decName[which], "decode-into-used-value-differs", hk.Hex(in),
+				"decoding into a value that already holds an earlier message gives a different result than decoding into a fresh one (stale fields survive)")
+		}
 	}
 	key := ""
 	if class == "ok" && len(in) > 4 {
@@ -464,6 +499,7 @@ func (c *c18) emitList(stream string, sh shape) (enc []byte, lenPos []int) {
 	var out []byte
 	var err error
 	p, _ := hk.Catch(func() { out, err = l.MarshalBinary() })
+	c.r.Retain("uePolicyContainer.UEPolicySectionManagementListContent.MarshalBinary", before, out)
 	desc := "ListContent.MarshalBinary " + before
 	if p || err != nil {
 		c.fail("uePolicyContainer.UEPolicySectionManagementListContent.MarshalBinary", "encode-failed", before, "MarshalBinary of an API-built list panicked or failed")
@@ -546,6 +582,7 @@ func (c *c18) emitResult(stream string, sh []resShape) []byte {
 	var out []byte
 	var err error
 	p, _ := hk.Catch(func() { out, err = l.MarshalBinary() })
+	c.r.Retain("uePolicyContainer.UEPolicySectionManagementResultContent.MarshalBinary", before, out)
 	if p || err != nil {
 		c.fail("uePolicyContainer.UEPolicySectionManagementResultContent.MarshalBinary", "encode-failed", before, "MarshalBinary of an API-built result panicked or failed")
 		return nil
@@ -634,6 +671,7 @@ func (c *c18) emitSer(stream string, s serShape) []byte {
 	var out []byte
 	var err error
 	p, _ := hk.Catch(func() { out, err = u.UePolDeliverySerEncode() })
+	r.Retain("uePolicyContainer.UePolDeliverySer.UePolDeliverySerEncode", term, out)
 	obs := "OErr"
 	switch {
 	case p:
